@@ -150,7 +150,7 @@ pub(crate) mod kani_verif {
     ) -> LmsKeyPair<H> {
         let k = KP_CALLS.fetch_add(1, Ordering::Relaxed);
         assert!(k < MAXL, "harness sizing");
-        assert!(aux_data.is_none(), "child trees are generated without aux data");
+        assert!(aux_data.is_none(), "trees generated here get no aux data");
         let pk: [u8; 32] = kani::any();
         let u = used_leafs_index.to_be_bytes();
         let mut i = 0;
@@ -245,7 +245,11 @@ pub(crate) mod kani_verif {
         let mut rk = ReferenceImplPrivateKey::<HF>::default();
         rk.compressed_used_leafs_indexes = CompressedUsedLeafsIndexes::new(c);
         rk.compressed_parameter = CompressedParameterSet::from_slice(&pb).unwrap();
-        let r = HssPrivateKey::<HF>::from(&rk, &mut None);
+        // with aux data of the top tree present: it must be dropped once the first child public key has been signed, so that
+        // no later authentication path (other trees) is ever built from the top tree's cache (C10)
+        let mut aux = Some(MutableExpandedAuxData::default());
+        let r = HssPrivateKey::<HF>::from(&rk, &mut aux);
+        assert!(aux.is_none() == (L > 1), "aux data is dropped after the top tree's signature (kept only for single-level keys)");
         assert!(r.is_ok(), "a key inside its lifetime always expands");
         let k = r.unwrap();
         assert!(k.private_key.len() == L && k.public_key.len() == L - 1 && k.signatures.len() == L - 1, "L trees, L-1 signed child keys");
@@ -314,13 +318,13 @@ pub(crate) mod kani_verif {
             }
         };
     }
-    // @h name=c03_from_l1 props=C03,C07,C01,C05,C13 tier=quick kind=proved cfg=w8 timeout=2400 funcs=HssPrivateKey::from contract="expanded key of counter c: level i tree = derive(level i-1 (seed,I), digit i-1), current leaf = digit i; child public key i signed by level i-1 leaf digit i-1 over its serialisation; used-leaf vector = digits (+1 above bottom); every counter, all heights; callees by contract; L=1"
+    // @h name=c03_from_l1 props=C03,C07,C01,C05,C13,C10 tier=quick kind=proved cfg=w8 timeout=2400 funcs=HssPrivateKey::from contract="expanded key of counter c: level i tree = derive(level i-1 (seed,I), digit i-1), current leaf = digit i; child public key i signed by level i-1 leaf digit i-1 over its serialisation; used-leaf vector = digits (+1 above bottom); every counter, all heights; callees by contract; L=1"
     from_harness!(c03_from_l1, 1);
-    // @h name=c03_from_l2 props=C03,C07,C01,C05,C13 tier=quick kind=proved cfg=w8 timeout=2400 funcs=HssPrivateKey::from contract="same, L=2"
+    // @h name=c03_from_l2 props=C03,C07,C01,C05,C13,C10 tier=quick kind=proved cfg=w8 timeout=2400 funcs=HssPrivateKey::from contract="same, L=2"
     from_harness!(c03_from_l2, 2);
-    // @h name=c03_from_l3 props=C03,C07,C01,C05,C13 tier=thorough kind=proved cfg=w8 timeout=3600 funcs=HssPrivateKey::from contract="same, L=3"
+    // @h name=c03_from_l3 props=C03,C07,C01,C05,C13,C10 tier=thorough kind=proved cfg=w8 timeout=3600 funcs=HssPrivateKey::from contract="same, L=3"
     from_harness!(c03_from_l3, 3);
-    // @h name=c03_from_l8 props=C03,C07,C01,C05,C13 tier=thorough kind=proved cfg=w8 timeout=7200 funcs=HssPrivateKey::from contract="same, L=8"
+    // @h name=c03_from_l8 props=C03,C07,C01,C05,C13,C10 tier=thorough kind=proved cfg=w8 timeout=7200 funcs=HssPrivateKey::from contract="same, L=8"
     from_harness!(c03_from_l8, 8);
 
     // ================================================================== C10/C11: aux front end (get_expanded_aux_data)
